@@ -47,6 +47,18 @@ fn main() {
         std::process::exit(2);
     });
 
+    // memory guard: a runaway allocation in the code under test must not take the machine down
+    std::thread::spawn(|| loop {
+        std::thread::sleep(std::time::Duration::from_secs(2));
+        if let Ok(statm) = std::fs::read_to_string("/proc/self/statm") {
+            let rss_pages: u64 = statm.split(' ').nth(1).and_then(|x| x.parse().ok()).unwrap_or(0);
+            if rss_pages * 4096 > 36 << 30 {
+                eprintln!("HARNESS: resident memory above 36 GiB, giving up");
+                std::process::exit(2);
+            }
+        }
+    });
+
     if args[2] == "--transcript" {
         // second process of a C19 cross-process pair
         std::process::exit(checks::c19::print_transcript(args.get(3).map(|s| s.as_str()).unwrap_or("")));
